@@ -7,6 +7,26 @@ V = "/verif"
 ALL = ["C%02d" % i for i in range(1, 21)]
 
 CHECKS = {
+ "C03": dict(level="model_checking",
+   text="A router model derived by reflection from the public container types (pointer member = last message, slice member = append in order) is replayed against the real decoder for every valid file type and every word of messages up to the bound, each message carrying its stream position; plus the accessor matrix, all 256 file-type bytes and type-changing file_id records.",
+   note="Model derivation trusts the container struct declarations, not the add() switches. Bound: words <=2 (quick) / <=3 (thorough) over 102 symbols, runs of 100 for append growth.",
+   technique="explicit enumeration of operation sequences against a reflection-derived reference model", ref="3 C03"),
+ "C12": dict(level="model_checking",
+   text="The timestamp register machine of the property (reference or none, offset = reference mod 32, local time relative to the reference) is run in lock-step with the real decoder over all words up to the bound of explicit / compressed / local timestamp records, all 32x32 offset pairs, long runs with several rollovers, both byte orders.",
+   note="Alphabet excludes reference value 0, 32-bit overflow of the second counter and system-time references interacting with local time (property silent).",
+   technique="explicit enumeration of record sequences against a reference state machine", ref="3 C12"),
+ "C13": dict(level="model_checking",
+   text="The definition-slot machine is explored two ways on the real decoder: all words up to the bound over define/data/compressed-data operations, and a breadth-first search over all 3125 reachable slot states with every one-step extension followed by a probe of every slot.",
+   note="Five local types x four definition variants in the words; all 16 local types at depth 2. Values are checked with the C02 model.",
+   technique="explicit-state BFS over model slot states + exhaustive bounded words, each trace replayed on the decoder", ref="3 C13"),
+ "C16": dict(level="model_checking",
+   text="All words up to the bound over 12 record groups x every truncation offset x all 8 option combinations; content, error and bytes consumed must equal the option-free run and the unknown-item lists must equal the model counters (bounded by completed / in-progress records on failure).",
+   note="Logger is a counting sink that formats its arguments (to execute the debug branches).",
+   technique="explicit enumeration of record sequences x crash points x configurations against reference counters", ref="3 C16"),
+ "C18": dict(level="model_checking",
+   text="Reference expansion/accumulation model (bit slices; 12/8/16-bit accumulators that restart per file) in lock-step with the decoder over every component source x boundary patterns x every container, all words of accumulating records up to the bound, and histories of up to 3 files decoded separately and chained. Mismatches are classified by exact defect models, so only the four listed findings are tolerated.",
+   note="Known findings K1-K3 are generated code pinned by TestGenerator goldens; their defect models shadow the package-level accumulator over the worker's whole decode history.",
+   technique="explicit enumeration of record sequences and file histories against a reference model with defect-model attribution", ref="3 C18"),
  "C02": dict(level="exploration",
    text="Bounded exhaustive enumeration on the real decoder: every observable (message, field) entry x every definition of a stated compat set x both byte orders x a boundary payload alphabet x record contexts, compared with an independent value denotation model (zero/sign extension, arrays, strings, times, coordinates) and the all-invalid rule for absent fields.",
    note="Model = harness/props/model.go (written from the FIT base-type rules). Value alphabets are boundary sets, not all 2^32 payloads. Messages that no file container exposes are not observable and not covered.",
